@@ -40,7 +40,7 @@ def with_incremental(schema):
     from graphql import GraphQLDeferDirective, GraphQLSchema, GraphQLStreamDirective
     extra = [GraphQLDeferDirective, GraphQLStreamDirective]
     try:
-        from graphql.type import GraphQLDisableErrorPropagationDirective
+        from graphql.type.directives import GraphQLDisableErrorPropagationDirective
         extra.append(GraphQLDisableErrorPropagationDirective)
     except ImportError:
         pass
